@@ -272,6 +272,7 @@ let p_op () = match next () with
    it has no effect on the enclosing simulation, so the model skips it *)
 let p_op_opt () = match !toks with
   | "nst" :: _ | "nsp" :: _ -> ignore (next ()); ignore (nint ()); ignore (nint ()); None
+  | "slp" :: _ -> ignore (next ()); ignore (nint ()); None      (* the handler is busy for a while: harness only *)
   | _ -> Some (p_op ())
 let p_script () = List.filter_map (fun x -> x) (plist p_op_opt)
 let p_model () =
